@@ -29,7 +29,7 @@ fn recipe() -> Recipe {
             f("sa", MType::array(MType::Bytes)),
         ],
         nil_ne: true,
-        funcs: ["b2b", "b2a", "a2b", "a2a", "pick", "cnt", "idb", "lower"].iter().map(|s| s.to_string()).collect(),
+        funcs: ["b2b", "b2a", "a2b", "a2a", "pick", "cnt", "idb", "lower", "yes", "nowi", "optb"].iter().map(|s| s.to_string()).collect(),
         concat: false,
         lists: vec![],
     }
@@ -115,7 +115,7 @@ impl Built {
     }
 }
 
-const NLEAVES: usize = 6;
+const NLEAVES: usize = 10;
 
 fn leaf(i: usize, abv: usize) -> Built {
     let (text, val, depth, kinds) = match i % NLEAVES {
@@ -125,7 +125,13 @@ fn leaf(i: usize, abv: usize) -> Built {
         3 => ("s == \"x\"", BV::One(true), 0, 0),
         4 => ("sa[*] == \"x\"", BV::Many(vec![true, false]), 0, 0),
         // lower(idb(["x","Y"])) = ["x","y"]
-        _ => ("lower(idb(sa[*])[*])[*] == \"y\"", BV::Many(vec![false, true]), 2, K_CALL),
+        5 => ("lower(idb(sa[*])[*])[*] == \"y\"", BV::Many(vec![false, true]), 2, K_CALL),
+        // calls with an empty argument list (functions without mandatory parameters):
+        // the empty list is still one argument list on the path
+        6 => ("yes()", BV::One(true), 1, K_CALL),
+        7 => ("nowi() == 42", BV::One(true), 1, K_CALL),
+        8 => ("optb( ) == \"dflt\"", BV::One(true), 1, K_CALL),
+        _ => ("optb(\"q\") == \"dflt\"", BV::One(false), 1, K_CALL),
     };
     Built { text: text.into(), val, depth, chain: false, kinds, pos: 0, hexname: false }
 }
@@ -549,7 +555,10 @@ fn shapes_case(ch: &mut Choices<'_>, st: &mut Stats) -> CaseResult {
         return Ok(());
     };
     // build inside-out
-    let mut b = leaf(if leaf_arr { 1 } else { 0 }, abv);
+    // the last spelling variant ends Bool sequences in a call with an empty argument list
+    let empty_call_leaf = !leaf_arr && variant == SHAPE_VARIANTS - 1;
+    let mut b = leaf(if leaf_arr { 1 } else if empty_call_leaf { 6 + n % 3 } else { 0 }, abv);
+    let leaf_depth = b.depth;
     let mut calls = outs.iter().rev();
     for (k, c) in seq.iter().enumerate().rev() {
         let step = match c {
@@ -567,12 +576,100 @@ fn shapes_case(ch: &mut Choices<'_>, st: &mut Stats) -> CaseResult {
         let v = (variant >> 1) * (1 + k) + k / 2;
         b = apply(step, &b, v, abv).expect("typed sequence is buildable");
     }
-    assert_eq!(b.depth, n, "model: depth of a pure sequence is its length");
+    assert_eq!(b.depth, n + leaf_depth, "model: depth of a pure sequence is its length (plus the leaf's own call)");
+    if empty_call_leaf {
+        st.class("innermost-construct-is-call-with-empty-argument-list");
+    }
     assert!(!b.arr(), "model: outermost kind is Bool");
     st.class(&format!("shape-length-{n}"));
     classify(st, &b);
     st.sample(&format!("shape-length-{n}"), || json!({"filter": b.text, "depth": b.depth, "value": b.val.show()}));
     small_limits(&b, abv, st)
+}
+
+// ---------------------------------------------------------------------------
+// sub-check "reuse": ONE parser object, many inputs.  The limit is a property
+// of the parser's settings, not of what it parsed before: rejected, malformed
+// and truncated inputs in between must not change later verdicts.
+
+fn random_shape(ch: &mut Choices<'_>, abv: usize, max_len: usize) -> Built {
+    let mut b = leaf(ch.draw(NLEAVES), abv);
+    let n = ch.draw(max_len + 1);
+    for k in 0..n {
+        let step = STEPS[ch.draw(STEPS.len())];
+        let v = ch.draw(24) + k;
+        if let Some(nb) = apply(step, &b, v, abv) {
+            b = nb;
+        }
+    }
+    if b.chain || b.arr() {
+        // close to a Bool, non-chain top level
+        b = apply(Step::P, &b, 0, abv).unwrap();
+        if b.arr() {
+            b = apply(Step::Q, &b, ch.draw(4), abv).unwrap();
+        }
+    }
+    b
+}
+
+fn reuse_case(ch: &mut Choices<'_>, st: &mut Stats) -> CaseResult {
+    let d = *ch.pick(&[0usize, 1, 2, 3, 4, 5, 6, 128]);
+    let abv = ch.draw(3);
+    let scheme: &Scheme = &SCHEME;
+    let parser = parser_for(scheme, d);
+    let n = ch.range(2, 7);
+    let mut history: Vec<Value> = Vec::new();
+    let (mut broken_before, mut over_before) = (false, false);
+    for _ in 0..n {
+        let b = random_shape(ch, abv, 7);
+        let kind = ch.weighted(&[3, 2, 1]);
+        if kind == 0 {
+            // judged: a well-typed shape of known depth
+            let show = || {
+                let mut c = case_json(&b.text, b.depth, d, b.val.show(), abv);
+                c["earlier_inputs_to_the_same_parser"] = json!(history);
+                c
+            };
+            st.eval();
+            let r = catch(|| parser.parse(&b.text).map_err(|e| e.to_string()));
+            let accepted = judge_parse("reused-parser", r, b.depth, d, !b.hexname, st, &show)?.is_some();
+            if accepted && (broken_before || over_before) {
+                st.class("reuse:accepted-after-a-rejected-input");
+                if b.depth >= 1 && b.depth + 1 >= d {
+                    st.nontrivial(&(&b.text, d, history.len()));
+                }
+            }
+            if !accepted {
+                over_before = true;
+            }
+            history.push(json!({"input": b.text, "accepted": accepted}));
+        } else {
+            // not judged (may or may not parse): a prefix cut inside open constructs, or a dangling operator
+            let text = if kind == 1 {
+                let cut = ch.draw(b.text.len() + 1);
+                let mut k = cut;
+                while !b.text.is_char_boundary(k) {
+                    k -= 1;
+                }
+                b.text[..k].to_string()
+            } else {
+                format!("({} and )", b.text)
+            };
+            st.eval();
+            match catch(|| parser.parse(&text).map(|_| ()).map_err(|e| e.to_string())) {
+                Err(p) => return Err(Fail::new("reused-parser-parse-panic", p, json!({"input": text, "max_nesting_depth": d, "earlier": history}))),
+                Ok(r) => {
+                    if r.is_err() {
+                        broken_before = true;
+                        st.class("reuse:malformed-input-rejected");
+                    }
+                    history.push(json!({"input": text, "accepted": r.is_ok(), "judged": false}));
+                }
+            }
+        }
+    }
+    st.sample("reuse", || json!({"max_nesting_depth": d, "inputs_in_order": history}));
+    Ok(())
 }
 
 fn shapes_total(max_len: usize) -> u64 {
@@ -927,6 +1024,7 @@ pub fn child(args: &[String]) -> i32 {
 pub fn subs() -> Vec<Sub> {
     vec![
         Sub { name: "shapes", f: Box::new(shapes_case) },
+        Sub { name: "reuse", f: Box::new(reuse_case) },
         Sub { name: "positions", f: Box::new(positions_case) },
         Sub { name: "deep", f: Box::new(deep_case) },
         Sub { name: "stack", f: Box::new(stack_case) },
@@ -938,8 +1036,9 @@ pub fn run(run: &Run) {
         "shapes: EVERY sequence over {paren, not, any/all, call} up to length 6 (quick) / 9 (thorough), typed by propagating Bool/Array(Bool) \
          through the adapters b2b/b2a/a2b/a2a (untypeable sequences counted as excluded), x 4 spelling variants x every limit d in 0..=8; \
          positions: every sequence up to length 3 / 5 over 12 constructs (the four above + pick() with the deep path in its 1st/2nd/3rd argument, cnt(), \
-         and/or/xor chains with the deep path as left/middle/right operand) over 6 leaves (t, f, ab, s==\"x\", sa[*]==\"x\", lower(idb(sa[*]))==\"y\") \
+         and/or/xor chains with the deep path as left/middle/right operand) over 10 leaves (t, f, ab, s==\"x\", sa[*]==\"x\", lower(idb(sa[*]))==\"y\", and the empty-argument-list calls yes(), nowi()==42, optb( )==\"dflt\", optb(\"q\")==\"dflt\") \
          x d in 0..=8, as a filter and wrapped in one more call through parse_value; \
+         reuse: ONE parser (d in 0..6, 128) fed 2..7 inputs in a row - well-typed shapes (judged as above) interleaved with prefixes cut inside open constructs and dangling operators (only: no panic); earlier inputs must not change later verdicts; \
          deep: random shapes of depth d-1, d, d+1 for d in {16, 64, 128 (default parser, no setter), 129, 200}, 1/4 of them through parse_value; \
          stack: 4 filters + 2 value expressions of depth exactly d in {16, 64, 128, 200} parsed, serialised, hashed, cloned, compiled, executed and dropped on a \
          thread with a stack of 64 KiB x (d + 8) in a child process; \
@@ -967,6 +1066,9 @@ pub fn run(run: &Run) {
     if want("positions") {
         let l = run.tier.pick(3, MAX_POS_LEN);
         run.enumerate("positions", positions_total(l), &positions_key, &*f("positions").f);
+    }
+    if want("reuse") {
+        run.random("reuse", run.tier.pick(30_000, 1_000_000), 200, &*f("reuse").f);
     }
     if want("deep") {
         run.random("deep", run.tier.pick(3_000, 200_000), 450, &*f("deep").f);
